@@ -3,18 +3,43 @@ from . import COMMON_TB, NOTE
 PROP = {
     "modules": ["Proofs.C13"],
     "streams": [{"name": "tw"}],
-    "rule": "tw: every operation list of length<=4 (quick) / 5 (thorough) over {TrimLeft, TrimRight, Flush, Write of "
-            "'', ' ', 'x', ' x', 'x ', '\\n '} and random lists of up to 12 operations whose writes mix ASCII/Unicode "
-            "whitespace, text and invalid UTF-8; driven against the real trimWriter through the verif hook",
+    "rule": "tw: (1) every operation list of length<=5 (quick) / 6 (thorough) over {TrimLeft, TrimRight, Flush, Write of "
+            "'', ' ', 'x', ' x', 'x ', '\\n '}; (2) every operation list of length<=3 (quick) / 4 (thorough) over "
+            "TrimLeft, TrimRight, Flush and Write of every string of at most two units over {space, newline, NBSP, 'x', "
+            "byte 0xC2, byte 0xA0} (43 writes; the two lone bytes can be joined into NBSP by trimming); (3) the shapes "
+            "w1 R w2 L x / w1 R L w2 L / w1 R F w2 L / w1 L R w2 x L for every pair of those writes; (4) random lists "
+            "of up to 12 operations whose writes mix every class of unicode.IsSpace, near misses (U+200B, U+180E, "
+            "U+FEFF), text and invalid UTF-8 (lone lead/continuation bytes, overlong, surrogate). All driven against "
+            "the real trimWriter through the verif hook and compared call by call with TW.step; distinct by case line",
     "trusted_base": COMMON_TB + ["unicode.IsSpace / utf8.DecodeRune / DecodeLastRune are modelled (Liquid/Utf8.lean) and compared on every tw case"],
-    "assumptions": ["TW.step describes render/trimwriter.go: checked by the tw stream on every run"],
+    "assumptions": ["TW.step describes render/trimwriter.go: checked by the tw stream on every run",
+                    "the erasure and adjacency laws are stated for writes that are valid UTF-8 (ValidOps); on invalid "
+                    "bytes the erasure law is false (theorem tw_erasure_fails_on_invalid_utf8) and only "
+                    "tw_no_trim_identity / tw_trimRight_empty_write / tw_trimRight_persists apply"],
 }
 
 TEXT = {
-    "text": "Theorems over ALL operation lists of the trim-writer state machine (whitespace erasure law; marker-free "
-            "lists lose nothing); the machine is compared call-by-call with the real trimWriter on exhaustive small "
-            "and random operation lists each run, and the whitespace-deletion oracle is evaluated on the real output.",
+    "text": "Level: operation lists of the trim writer (a template with hyphens issues the operation list of the "
+            "hyphen-free template plus TrimLeft/TrimRight). Part A, generic alphabet with a whitespace predicate, for "
+            "EVERY operation list: the output with trims is a whitespace-deletion of the output without them "
+            "(trim_subseq, trim_sublist), both agree after deleting all whitespace (trim_only_ws), a list without trims "
+            "outputs the concatenation of its writes (no_trim_identity, erased_output_is_concat); a TrimLeft directly "
+            "after / TrimRight directly before the write of a text acts as the write of the right-/left-stripped text "
+            "(trimLeft_adjacent, trimRight_adjacent, and the exact behaviour of blank or empty texts, of a pending flag, "
+            "of the empty write that consumes the flag, and of a TrimRight persisting across TrimLeft/Flush: "
+            "trimLeft_adjacent_noflag/_ws, trimRight_adjacent_flag/_ws, trimRight_empty_write, trimRight_persists_*). "
+            "Part B, bridge to the byte-level model TW.step for valid UTF-8: decode/encode round trip, "
+            "bytes.TrimLeftFunc/TrimRightFunc(unicode.IsSpace) on encoded runes (tw_trimLeftSpace_encode, "
+            "tw_trimRightSpace_encode, through utf8.DecodeLastRune), step-by-step simulation (tw_step_encode, "
+            "tw_runOps_encode), hence all laws on bytes (tw_trim_only_ws, tw_trim_subseq, tw_trim_valid_sublist, "
+            "tw_trimLeft_adjacent*, tw_trimRight_adjacent*); tw_no_trim_identity holds for all bytes; "
+            "tw_erasure_fails_on_invalid_utf8 shows the UTF-8 hypothesis is necessary. Part C: the output is the "
+            "concatenation of the underlying write calls, one call at most per operation, only TrimLeft can issue an "
+            "empty call. Each run compares TW.step with the real trimWriter call by call and evaluates on the real "
+            "output: identity without trims (all bytes), whitespace-erasure and whitespace-deletion (valid UTF-8), and "
+            "every adjacency theorem as a metamorphic relation between two runs of the real trimWriter.",
     "design_ref": "DESIGN.md 6 C13",
-    "note": NOTE + "Template-level lifting (hyphen_erasure over rendered templates) is added with the render model.",
-    "technique": "Lean 4 proof (simulation invariant over operation lists) + model/implementation correspondence",
+    "note": NOTE + "Template-level lifting (hyphen_ops, hyphen_erasure, hyphen_faces_text over rendered templates) is added with the render model.",
+    "technique": "Lean 4 proof (simulation invariant and commit lemma over operation lists, generic alphabet; UTF-8 codec "
+                 "bridge to the byte model) + model/implementation correspondence + metamorphic oracle",
 }
